@@ -115,6 +115,43 @@ func VerifH_C15_scalar_roundtrip() {
 	}
 }
 
+type verifNamedI8 int8
+type verifNamedU16 uint16
+type verifNamedI64 int64
+type verifNamedU64 uint64
+
+// Named numeric types take the reflect path of toValue.
+func VerifH_C15_named_kinds() {
+	vm := New()
+	var want float64
+	switch verifChoose(4) {
+	case 0:
+		x := verifNondetInt8()
+		vm.Set("v", verifNamedI8(x))
+		want = float64(x)
+	case 1:
+		x := verifNondetUint16()
+		vm.Set("v", verifNamedU16(x))
+		want = float64(x)
+	case 2:
+		x := verifNondetInt64()
+		vm.Set("v", verifNamedI64(x))
+		want = float64(x)
+	default:
+		x := verifNondetUint64()
+		vm.Set("v", verifNamedU64(x))
+		want = float64(x)
+	}
+	v, _ := vm.Get("v")
+	verifCover("reached")
+	verifAssert(v.IsNumber(), "a named numeric type arrives as a number")
+	f, _ := v.ToFloat()
+	verifAssert(f == want, "the number seen is the Go value")
+	r, _ := vm.Run("v")
+	rf, _ := r.ToFloat()
+	verifAssert(rf == want, "the script sees the same number")
+}
+
 // C15-H2: Go-side conversions agree with the in-language ones for numbers.
 func VerifH_C15_agreement() {
 	vm := New()
